@@ -371,13 +371,15 @@ class JSON:
         plus: dict[tuple[Any, Any], dict[str, list[tuple[Any, IP]]]] = {}
         minus: dict[tuple[Any, Any], list[Any]] = {}
 
-        # EOR messages have .nlris directly but no .announces/.withdraws
+        # EOR messages have .nlris directly but no .announces/.withdraws: the marker is reported
+        # on its own ({ "eor": { "afi": ..., "safi": ... } }); listing it among the announced
+        # routes produced '"null": [ "eor": {...} ]', which is not JSON
         if getattr(update_msg, 'IS_EOR', False):
-            # EOR message - use .nlris directly with original behavior
-            for nlri in update_msg.nlris:
-                nexthop_ip = getattr(nlri, 'nexthop', IP.NoNextHop)
-                nexthop_str = str(nexthop_ip) if nexthop_ip is not IP.NoNextHop else 'null'
-                plus.setdefault(nlri.family().afi_safi(), {}).setdefault(nexthop_str, []).append((nlri, nexthop_ip))
+            if update_msg.nlris:
+                return {'message': self._json(f'{{ {self._nlri_to_json(update_msg.nlris[0])} }}')}
+            # the cached UpdateCollection marker carries its family but no NLRI object
+            eor_str = f'"eor": {{ "afi" : "{update_msg.eor_afi}", "safi" : "{update_msg.eor_safi}" }}'
+            return {'message': self._json(f'{{ {eor_str} }}')}
         else:
             # UpdateCollection - get nexthop from RoutedNLRI container
             for routed in update_msg.announces:
